@@ -162,6 +162,8 @@ def ev(cond, row):
     k = cond[0]
     if k == 'or':
         return OR(ev(c, row) for c in cond[1]) if cond[1] else False
+    if k == 'and':
+        return AND(ev(c, row) for c in cond[1])
     if k == 'static':
         return STATICS[cond[1]][1](row)
     _, col, op, val = cond
@@ -192,7 +194,7 @@ def ev(cond, row):
 def bound_values(cond):
     """values the statement must carry for this condition, in order"""
     k = cond[0]
-    if k == 'or':
+    if k in ('or', 'and'):
         return [v for c in cond[1] for v in bound_values(c)]
     if k == 'static':
         return []
@@ -239,7 +241,13 @@ STATICS += [
 def gen_cond(rng, depth=0):
     r = rng.random()
     if depth < 2 and r < 0.2:
-        return ('or', [gen_cond(rng, depth + 1) for _ in range(rng.choice([0, 1, 1, 2, 3]))])
+        ops = [gen_cond(rng, depth + 1) for _ in range(rng.choice([0, 1, 1, 2, 3]))]
+        if len(ops) >= 2 and rng.random() < 0.3 and not any(x[0] == 'static' and x[1] >= N_TOP for x in ops[-2:]):
+            # (static texts with a bare OR are only safe inside the parentheses of an OR group)
+            # two of the operands are tied together by a group class of the application (derived from the package's
+            # OR-group, joining its operands with AND): "a OR (b AND c)"
+            ops = ops[:-2] + [('and', ops[-2:])]
+        return ('or', ops)
     if r < 0.24:
         return ('static', rng.randrange(len(STATICS) if depth else N_TOP))
     if r < 0.28:
@@ -298,7 +306,18 @@ def as_param(col, v):
     return v
 
 
+class VfAndGroup(SqlMethod._or):
+    """a condition group of the application: derived from the package's OR-group, it joins its operands with AND"""
+
+    def make_text_update_values(self, values_list, placeholders_type):
+        if not self.operands:
+            return "TRUE"
+        return "(" + " AND ".join(op.make_text_update_values(values_list, placeholders_type) for op in self.operands) + ")"
+
+
 def to_arg(c, rng):
+    if c[0] == 'and':
+        return VfAndGroup(*[to_arg(x, rng) for x in c[1]])
     if c[0] == 'or':
         pos, kw = [], {}
         for x in c[1]:
@@ -318,7 +337,7 @@ def to_arg(c, rng):
 
 
 def interesting(c):
-    if c[0] == 'or':
+    if c[0] in ('or', 'and'):
         return True
     if c[0] == 'f':
         op = c[2].upper()
